@@ -5,6 +5,7 @@ package main
 
 import (
 	"fmt"
+	"os"
 	"strings"
 	"sync/atomic"
 	"time"
@@ -675,6 +676,12 @@ func runC06(r *Run) {
 			res, ok := awaitDo(ch, bound)
 			if !ok || res.panic != "" {
 				r.violate(Violation{What: "a call waiting while the connection was recycled panicked or hung: " + resultStr(res), Case: "waiter sweep (RECONNECT rejected, call on the re-dialled connection, peer drops it)"})
+			}
+			if os.Getenv("VERIF_DEBUG") != "" {
+				for i, l := range f.tc.log.snapshot() {
+					fmt.Fprintln(os.Stderr, f.tc.log.at[i].Format("05.000"), l)
+				}
+				fmt.Fprintln(os.Stderr, "result", resultStr(res), res.dur)
 			}
 			r.emit("wt.run S R0 W0.1 X F0", resultStr(res)+" | nr=0 dup=0 unsup=0", true)
 		}
